@@ -27,6 +27,10 @@ def classes_of(rec):
             c.append("planned_unreleased_task")
         if st_["batch_join_later"]:
             c.append("batch_member_planned_later")
+        if st_.get("retracted"):
+            c.append("plan_retracted")
+        if st_.get("replanned"):
+            c.append("plan_replaced")
     if rec.mon.max_resident >= 2:
         c.append("shared_worker")
     if spec["flags"].get("loop_timeout") is not None:
